@@ -171,7 +171,7 @@ struct Stepper {
     // wait until the kernel has delivered what the client wrote (loopback: normally immediate)
     void wait_delivery(Client& cl) {
         if (!session_open(cl)) return;
-        for (int tries = 0; tries < 2000; ++tries) {
+        for (int tries = 0; tries < 60000; ++tries) {   // up to 30 s: loopback delivery is deferred work for the kernel and can lag under load
             int avail = 0;
             ioctl(cl.server_fd, FIONREAD, &avail);
             bool hup = false;
